@@ -50,6 +50,7 @@ type c16Trigger struct {
 	def    svc.EventTriggerDefinition
 	bytes  []byte
 	valid  bool
+	twinOf int // index of the trigger this one copies (same prefix, sender, definition; other eon), -1 = none
 }
 
 // item is one log placed into a block.
@@ -71,6 +72,7 @@ type c16Chain struct {
 	desc     string
 	pairs    map[byte][][2]uint64
 	rel      []string // labels: where matching logs lie relative to registrations of the final chain
+	twins    []string // labels: outcome of triggers sharing an identity under several eons
 }
 
 type c16Head struct {
@@ -107,10 +109,24 @@ type refTrig struct {
 // registrations are applied (a later registration of the same key replaces
 // block and expiry; a fired row stays).
 func (c *c16Chain) refFired(n uint64) map[string]string {
+	fired, _ := c.refFiredInfo(n)
+	return fired
+}
+
+type firedInfo struct {
+	identity string
+	block    uint64
+	logIdx   uint
+	expiry   uint64 // of the registration in force when it fired
+	def      *svc.EventTriggerDefinition
+}
+
+func (c *c16Chain) refFiredInfo(n uint64) (map[string]string, map[string]firedInfo) {
 	m := c.m
 	trigs := map[string]*refTrig{}
 	var order []string
 	fired := map[string]string{}
+	info := map[string]firedInfo{}
 	for num := uint64(1); num <= n; num++ {
 		blk := m.chain.Canonical(num)
 		if blk == nil {
@@ -135,6 +151,7 @@ func (c *c16Chain) refFired(n uint64) map[string]string {
 						"eon": t.cols["eon"], "identity": t.cols["identity"], "identity_prefix": t.cols["identity_prefix"], "sender": t.cols["sender"],
 						"block_number": int64(lg.BlockNumber), "block_hash": lg.BlockHash.Bytes(), "tx_index": int64(lg.TxIndex), "log_index": int64(lg.Index),
 					})
+					info[key] = firedInfo{string(t.cols["identity"].([]byte)), num, lg.Index, t.expiry, t.def}
 					break
 				}
 			}
@@ -155,7 +172,47 @@ func (c *c16Chain) refFired(n uint64) map[string]string {
 			trigs[ev.key] = &refTrig{regBlock: num, expiry: ev.expiry, def: d, cols: ev.cols}
 		}
 	}
-	return fired
+	return fired, info
+}
+
+// twinLabels classifies the reference outcome of triggers that share one
+// identity (same prefix, sender, definition) under different eons.
+func (c *c16Chain) twinLabels(n uint64) []string {
+	_, info := c.refFiredInfo(n)
+	byID := map[string][]firedInfo{}
+	for _, fi := range info {
+		byID[fi.identity] = append(byID[fi.identity], fi)
+	}
+	set := map[string]bool{}
+	for _, fis := range byID {
+		if len(fis) < 2 {
+			continue
+		}
+		set["same-identity-several-eons:all-fire"] = true
+		for i := 0; i < len(fis); i++ {
+			for j := i + 1; j < len(fis); j++ {
+				a, b := fis[i], fis[j]
+				if a.block != b.block || a.logIdx != b.logIdx {
+					continue
+				}
+				set["same-identity-several-eons:fire-at-the-same-log"] = true
+				for m2 := a.block + 1; m2 <= min(a.expiry, b.expiry, n); m2++ {
+					blk := c.m.chain.Canonical(m2)
+					for k := range blk.Logs {
+						if ok, _ := refMatch(a.def, &blk.Logs[k]); ok {
+							set["same-identity-several-eons:second-matching-log-before-expiry"] = true
+						}
+					}
+				}
+			}
+		}
+	}
+	var out []string
+	for l := range set {
+		out = append(out, l)
+	}
+	sort.Strings(out)
+	return out
 }
 
 func (c *c16Chain) defByBytes(b []byte) *svc.EventTriggerDefinition {
@@ -179,7 +236,7 @@ func hasDynamic(d *svc.EventTriggerDefinition) bool {
 	return false
 }
 
-func genC16Chain(rt *rapid.T, exclReReg bool) *c16Chain {
+func genC16Chain(rt *rapid.T, exclReReg bool, rec *Recorder) *c16Chain {
 	c := &c16Chain{}
 	c.m = newScriptedMachine(kindMulti, 0, svc.DefaultMaxRequestBlockRange, nil)
 	c.m.rt = rt
@@ -196,8 +253,33 @@ func genC16Chain(rt *rapid.T, exclReReg bool) *c16Chain {
 	nT := rapid.IntRange(1, 4).Draw(rt, "triggers")
 	for i := 0; i < nT; i++ {
 		l := fmt.Sprintf("t%d", i)
-		t := c16Trigger{valid: true, prefix: smallHash(0xcc, i), sender: smallAddr(0x30 + rapid.IntRange(0, 1).Draw(rt, l+"owner"))}
+		t := c16Trigger{valid: true, twinOf: -1, prefix: smallHash(0xcc, i), sender: smallAddr(0x30 + rapid.IntRange(0, 1).Draw(rt, l+"owner"))}
 		t.eon = rapid.SampledFrom([]uint64{0, 1, 1, 2}).Draw(rt, l+"eon")
+		if i > 0 && rapid.IntRange(0, 9).Draw(rt, l+"sameIdentityOtherEon") < 4 {
+			// the same (prefix, sender, definition) registered for another eon
+			// (keyper set): same identity, different key (eon, identity)
+			j := rapid.IntRange(0, i-1).Draw(rt, l+"twinOf")
+			for c.trig[j].twinOf >= 0 {
+				j = c.trig[j].twinOf
+			}
+			if o := c.trig[j]; o.valid {
+				used := map[uint64]bool{o.eon: true}
+				for _, x := range c.trig {
+					if x.twinOf == j {
+						used[x.eon] = true
+					}
+				}
+				t = c16Trigger{valid: true, twinOf: j, prefix: o.prefix, sender: o.sender, def: o.def, bytes: o.bytes}
+				for e := uint64(0); e < 8; e++ {
+					if !used[e] {
+						t.eon = e
+						break
+					}
+				}
+				c.trig = append(c.trig, t)
+				continue
+			}
+		}
 		if i > 0 && rapid.IntRange(0, 4).Draw(rt, l+"sameDef") == 0 && !hasDynamic(&c.trig[0].def) && c.trig[0].valid {
 			t.def = c.trig[0].def // two triggers waiting for the same event
 		} else {
@@ -243,6 +325,7 @@ func genC16Chain(rt *rapid.T, exclReReg bool) *c16Chain {
 	}
 	var desc []string
 	ttls := []uint64{0, 1, 1, 2, 3, 6, 6, 12, 40}
+	regsOf := map[int][][2]uint64{}
 	for i := range c.trig {
 		t := c.trig[i]
 		l := fmt.Sprintf("t%d", i)
@@ -254,13 +337,21 @@ func genC16Chain(rt *rapid.T, exclReReg bool) *c16Chain {
 		last := uint64(0)
 		for j := 0; j < nReg && last < maxN; j++ {
 			r := last + uint64(rapid.IntRange(1, int(min(maxN-last, 14))).Draw(rt, fmt.Sprintf("%sreg%d", l, j)))
+			if o := t.twinOf; j == 0 && o >= 0 && len(regsOf[o]) > 0 && rapid.IntRange(0, 4).Draw(rt, l+"nearTwin") > 0 {
+				// close to the original's registration so that both are active together
+				r0 := regsOf[o][0][0]
+				r = uint64(max(1, int(r0)+rapid.IntRange(-1, 1).Draw(rt, l+"twinShift")))
+				r = min(r, maxN)
+			}
 			if j > 0 && len(regs) > 0 && exclReReg && c.fork && r+9 > c.f && regs[0][0]+reorgDepth <= c.a {
 				// a second registration that some rollback window could delete while the first lies below it
-				recC16.Excluded(sigReRegLost)
+				rec.Excluded(sigReRegLost)
 				break
 			}
 			ttl := rapid.SampledFrom(ttls).Draw(rt, fmt.Sprintf("%sttl%d", l, j))
-			if rapid.IntRange(0, 19).Draw(rt, fmt.Sprintf("%shugeTTL%d", l, j)) == 0 {
+			if t.twinOf >= 0 && j == 0 {
+				ttl = rapid.SampledFrom([]uint64{3, 6, 6, 12, 40}).Draw(rt, fmt.Sprintf("%stwinTTL", l))
+			} else if rapid.IntRange(0, 19).Draw(rt, fmt.Sprintf("%shugeTTL%d", l, j)) == 0 {
 				ttl = 1 << 63 // expiration beyond int64: inadmissible registration
 			}
 			last = r
@@ -277,7 +368,10 @@ func genC16Chain(rt *rapid.T, exclReReg bool) *c16Chain {
 		if len(regs) == 0 {
 			regs = append(regs, [2]uint64{last, last})
 		}
+		regsOf[i] = regs
 		nLogs := rapid.IntRange(1, 4).Draw(rt, l+"logs")
+		// some triggers only ever see matching logs outside their lifetime
+		outsideOnly := rapid.IntRange(0, 4).Draw(rt, l+"logsOnlyOutsideLifetime") == 0
 		for j := 0; j < nLogs; j++ {
 			ll := fmt.Sprintf("%slog%d", l, j)
 			reg := regs[rapid.IntRange(0, len(regs)-1).Draw(rt, ll+"rel")]
@@ -286,7 +380,10 @@ func genC16Chain(rt *rapid.T, exclReReg bool) *c16Chain {
 			order := 20
 			offsets := []string{"before", "same-before", "same-after", "next", "next2", "mid", "pre-expiry", "at-expiry", "after-expiry", "after-expiry2", "anywhere"}
 			sides := []string{"A", "B", "B", "AB"}
-			if j == 0 && rapid.IntRange(0, 9).Draw(rt, ll+"inLifetime") < 7 {
+			if outsideOnly {
+				offsets = []string{"before", "same-after", "after-expiry", "after-expiry", "after-expiry2"}
+				sides = []string{"B", "B", "AB"}
+			} else if j == 0 && rapid.IntRange(0, 9).Draw(rt, ll+"inLifetime") < 7 {
 				offsets = []string{"next", "next2", "mid", "pre-expiry", "at-expiry", "at-expiry"}
 				sides = []string{"B", "B", "AB"}
 			}
@@ -318,7 +415,7 @@ func genC16Chain(rt *rapid.T, exclReReg bool) *c16Chain {
 				// keep the aimed log inside the part of the lifetime the chain covers
 				n = max(r+1, min(n, e, maxN))
 			}
-			want := rapid.IntRange(0, 9).Draw(rt, ll+"want") < 7 || (j == 0 && rapid.Bool().Draw(rt, ll+"want0"))
+			want := rapid.IntRange(0, 9).Draw(rt, ll+"want") < 7 || (j == 0 && rapid.Bool().Draw(rt, ll+"want0")) || outsideOnly
 			spec := genLogFor(rt, ll, &t.def, want)
 			place(ll, n, c16Item{order: order, desc: fmt.Sprintf("log(t%d,%v)", i, want), mk: func(*branchState, uint64) scriptLog { return scriptLog{spec, &refEvent{}} }}, sides)
 			desc = append(desc, fmt.Sprintf("t%d-log@%d", i, n))
@@ -356,7 +453,7 @@ func genC16Chain(rt *rapid.T, exclReReg bool) *c16Chain {
 	c.rel = c.relationLabels()
 	c.desc = fmt.Sprintf("f=%d a=%d b=%d fork=%v %s", c.f, c.a, c.b, c.fork, strings.Join(desc, " "))
 	for i, t := range c.trig {
-		c.desc += fmt.Sprintf(" T%d{eon=%d valid=%v %s}", i, t.eon, t.valid, defDesc(&t.def))
+		c.desc += fmt.Sprintf(" T%d{eon=%d valid=%v twinOf=%d %s}", i, t.eon, t.valid, t.twinOf, defDesc(&t.def))
 	}
 	return c
 }
@@ -728,15 +825,24 @@ func c16Labels(c *c16Chain, hs []c16Head, p *c16Partition, fired map[string]stri
 	}
 	labels = append(labels, fmt.Sprintf("fired=%d", min(len(fired), 3)))
 	labels = append(labels, c.rel...)
+	labels = append(labels, c.twins...)
+	for _, t := range c.trig {
+		if t.twinOf >= 0 {
+			labels = append(labels, "chain:same-identity-registered-for-several-eons")
+			break
+		}
+	}
 	return labels, reorg
 }
 
 func runC16Case(rt *rapid.T, nPartitions int) {
 	exclF9 := isKnown("C16", sigF9)
 	exclReReg := isKnown("C16", sigReRegLost) || isKnown("C15", sigReRegLost) // recorded under C15; same code path
-	c := genC16Chain(rt, exclReReg)
+	c := genC16Chain(rt, exclReReg, recC16)
 	defer c.m.close()
 	hs := c.heads()
+	c.m.chain.SetHead(hs[len(hs)-1].blk)
+	c.twins = c.twinLabels(hs[len(hs)-1].blk.Number())
 	var finals []map[string]string
 	var descs []string
 	for k := 0; k < nPartitions; k++ {
